@@ -145,6 +145,7 @@ type toolRun struct {
 	StdinFile   string   `json:"stdin_file,omitempty"`
 	StdinOff    int64    `json:"stdin_off,omitempty"`
 	StdinSocket bool     `json:"stdin_socket,omitempty"`
+	Dir         string   `json:"dir,omitempty"` // working directory of the tool process
 	Env         []string `json:"env,omitempty"` // extra environment of the tool process
 	Exit        int      `json:"exit"`
 	Stderr      string   `json:"stderr"`
@@ -345,6 +346,39 @@ func c19(x *mon.Ctx) {
 			t.Stdin, t.StdinSocket = quote, true
 			t = add("stdin-kind", "socket-forged/"+sp, "", 2, -1, false, append(append([]string{}, in...), "-trusted_roots", rootf)...)
 			t.Stdin, t.StdinSocket = forgedB, true
+		}
+	}
+	{ // relative paths mean what they mean to every program: relative to the working directory — whatever files of the same name
+		// lie next to the configuration file, next to the quote, or next to the tool
+		wd, cd := filepath.Join(dir, "workdir"), filepath.Join(dir, "confdir")
+		_ = os.MkdirAll(filepath.Join(wd, "pki"), 0o755)
+		_ = os.MkdirAll(filepath.Join(cd, "pki"), 0o755)
+		rightPEM, _ := os.ReadFile(rootf)
+		wrongPEM, _ := os.ReadFile(wrongRootf)
+		emptyCfg, _ := proto.Marshal(&ccpb.Config{RootOfTrust: &ccpb.RootOfTrust{}, Policy: &ccpb.Policy{}})
+		_ = os.WriteFile(filepath.Join(cd, "empty.bin"), emptyCfg, 0o644)
+		_ = os.WriteFile(filepath.Join(wd, "quote.bin"), quote, 0o644)
+		for _, v := range []struct {
+			name              string
+			inWork, nextToCfg []byte
+			want              int
+		}{{"right-in-workdir-wrong-next-to-config", rightPEM, wrongPEM, 0}, {"wrong-in-workdir-right-next-to-config", wrongPEM, rightPEM, 2}, {"right-in-workdir-none-next-to-config", rightPEM, nil, 0}} {
+			for _, rel := range []string{"roots.pem", "pki/roots.pem", "./roots.pem"} {
+				sub := filepath.Join(dir, "rel-"+v.name+"-"+strings.NewReplacer("/", "_", ".", "_").Replace(rel))
+				w2, c2 := filepath.Join(sub, "workdir"), filepath.Join(sub, "confdir")
+				_ = os.MkdirAll(filepath.Join(w2, "pki"), 0o755)
+				_ = os.MkdirAll(filepath.Join(c2, "pki"), 0o755)
+				_ = os.WriteFile(filepath.Join(w2, rel), v.inWork, 0o644)
+				if v.nextToCfg != nil {
+					_ = os.WriteFile(filepath.Join(c2, rel), v.nextToCfg, 0o644)
+				}
+				_ = os.WriteFile(filepath.Join(c2, "empty.bin"), emptyCfg, 0o644)
+				_ = os.WriteFile(filepath.Join(w2, "quote.bin"), quote, 0o644)
+				for _, cfgArg := range []string{filepath.Join(c2, "empty.bin"), "../confdir/empty.bin"} {
+					t := add("relative-paths", fmt.Sprintf("%s/-trusted_roots=%s/-config=%s", v.name, rel, map[bool]string{true: "absolute", false: "relative"}[filepath.IsAbs(cfgArg)]), "", v.want, -1, v.want == 0, "-in", "quote.bin", "-config", cfgArg, "-trusted_roots", rel)
+					t.Dir = w2
+				}
+			}
 		}
 	}
 	add("bundle", "wrong-root", "", 2, -1, false, "-in", qf, "-trusted_roots", wrongRootf)
@@ -774,6 +808,7 @@ func c19(x *mon.Ctx) {
 			cmd.Env = append(cmd.Env, "HTTPS_PROXY="+n.proxyURL, "SSL_CERT_FILE="+n.caFile, "SSL_CERT_DIR="+filepath.Join(dir, "nocerts"))
 		}
 		cmd.Env = append(cmd.Env, t.Env...)
+		cmd.Dir = t.Dir
 		switch {
 		case t.StdinFile != "":
 			f, err := os.Open(t.StdinFile)
@@ -898,6 +933,7 @@ func c19(x *mon.Ctx) {
 	}
 	x.Require("baseline", 1, 3, 4)
 	x.Require("stdin-kind", 12, 9, 21)
+	x.Require("relative-paths", 12, 6, 18)
 	x.Require("network", 5, 12, 20)
 	x.Require("policy-field/mr_td", 4, 10, 16)
 	x.Require("typed-fetch-error", 0, 24, 24)
